@@ -22,6 +22,7 @@ PROOFS = ["theories/Props/C13.vo", "theories/Sni/WireLegacy.vo"]
 STATEMENT_FILES = ["theories/Props/C13.v", "theories/Sni/WireGen.v", "theories/Sni/WireLegacy.v"]
 
 ERRCODE = {"ok": 0, "eof": 1, "tail": 2, "toolong": 3}
+SHAPES = {"one": 1, "half": 2, "dataerr": 3, "zero": 4, "chunk7": 5, "one+dataerr": 6}
 
 
 def segs(ss):
@@ -77,6 +78,16 @@ def to_coq(c):
     if op == "encreply":
         return "CEncReply %s %d %d %s %s %s" % (c["id"], c["typ"], c["ec"], coq_str(c["name"]),
                                                values(c.get("fields")), segs(o.get("bytes")))
+    shape = SHAPES.get(c.get("shape") or "", 0)
+    if op == "dec" and shape and seglen(c.get("input")) <= 4000:
+        # the reader behaviour is part of the case: evaluated on the reader-based model
+        return "CDecS %d %s %d %s %s %d %d %s %d" % (
+            shape, coq_str(c["name"]), c["cap"], "true" if c["end"] else "false", segs(c.get("input")),
+            obs_err(o), o.get("count", 0), values(o.get("fields")), o.get("alloc", 0))
+    if op == "start" and shape and seglen(c.get("input")) <= 4000:
+        return "CStartS %d %s %d %s %d %s %s %d" % (
+            shape, segs(c.get("input")), obs_err(o), o.get("id") or "0", o.get("typ", 0),
+            coq_str(o.get("name", "")), values(o.get("fields")), o.get("alloc", 0))
     if op == "dec":
         return "CDec %s %d %s %s %d %d %s %d" % (
             coq_str(c["name"]), c["cap"], "true" if c["end"] else "false", segs(c.get("input")),
@@ -85,6 +96,19 @@ def to_coq(c):
         return "CStart %s %d %s %d %s %s %d" % (
             segs(c.get("input")), obs_err(o), o.get("id") or "0", o.get("typ", 0),
             coq_str(o.get("name", "")), values(o.get("fields")), o.get("alloc", 0))
+    if op == "real":
+        pr = {"helloRequest": 1, "dialRequest": 2, "writeRequest": 3, "readRequest": 4, "statusRequest": 5,
+              "closeRequest": 6, "dialSideRequest": 8, "dialSide2Request": 9}[c["name"]]
+        rerr = {"ok": 0, "eof": 1, "lenoverflow": 3, "hang": 5, "ctx": 5}.get(o.get("rerr", ""), 8)
+        return "CReal %d %s %s %s %d %s %d %s %s %d %s %d %s %d %s" % (
+            pr, coq_str(c["name"]), values(c.get("sent")), segs(c.get("input")), obs_err(o), o.get("id") or "0",
+            o.get("typ", 0), coq_str(o.get("name", "")), values(o.get("fields")), o.get("alloc", 0),
+            coq_str(c["rname"]), c.get("cap", 0), segs(c.get("reply")), rerr, values(o.get("rfields")))
+    if op == "wrap":
+        typ, name, sent = wrap_request(c)
+        return "CReal %d %s %s %s %d %s %d %s %s %d %s 0 [] 0 []" % (
+            typ, coq_str(name), values(sent), segs(c.get("input")), obs_err(o), o.get("id") or "0",
+            o.get("typ", 0), coq_str(o.get("name", "")), values(o.get("fields")), o.get("alloc", 0), coq_str(""))
     if op == "tread":
         return "CTRead %d %d %s %d" % (c["buflen"], c["replen"], "true" if o.get("err") == "ok" else "false",
                                        o.get("n", 0))
@@ -94,12 +118,105 @@ def to_coq(c):
     raise ValueError(op)
 
 
+def seg_bytes(ss):
+    out = bytearray()
+    for s in ss or []:
+        if "rep" in s:
+            out += bytes([s["rep"][0]]) * s["rep"][1]
+        else:
+            out += bytes.fromhex(s.get("hex", ""))
+    return bytes(out)
+
+
+def canon(f):
+    """A field value as the property compares it (what was encoded vs what was decoded)."""
+    k = f["k"]
+    if k == "u64":
+        return (k, int(f.get("u", "0")))
+    if k == "int":
+        return (k, int(f.get("i", "0")))
+    if k == "bytes":
+        return (k, seg_bytes(f.get("b")))
+    if f.get("nil") or int(f.get("i", "0")) == 0:
+        return (k, None)                       # error code 0 is "no error" on the wire
+    return (k, int(f.get("i", "0")), seg_bytes(f.get("b")))
+
+
+def same_fields(a, b):
+    return [canon(f) for f in a or []] == [canon(f) for f in b or []]
+
+
+def wrap_request(c):
+    """(type code, request message, fields) that the call site must put on the wire for its arguments."""
+    a = c["sent"]
+    n = c["name"]
+    if n == "hello":
+        return 1, "helloRequest", [a[0]]
+    if n == "write":
+        return 3, "writeRequest", [a[0], a[1]]
+    if n == "read":
+        return 4, "readRequest", [a[0], a[1]]
+    return 6, "closeRequest", [a[0]]
+
+
+def wrap_oracle(c):
+    o = c["obs"]
+    typ, name, sent = wrap_request(c)
+    if o.get("err") != "ok" or o.get("name") != name or o.get("typ") != typ or not same_fields(o.get("fields"), sent):
+        return "call site %s: the request on the wire is %s %r, its arguments say %s %r" % (
+            c["name"], o.get("name"), o.get("fields"), name, sent)
+    rs = c["rsent"]
+    e = canon(rs[-1]) if rs and rs[-1]["k"] == "err" else ("err", None)
+    want_err = "ok" if e[1] is None else ("ioeof" if e[1] == 10 else "remote")
+    n = c["name"]
+    if n == "hello":
+        if o.get("rerr") != "ok" or seg_bytes(o.get("rbytes")) != canon(rs[0])[1]:
+            return "call site hello: returned %r (%s), the reply carries %r" % (seg_bytes(o.get("rbytes")), o.get("rerr"), canon(rs[0])[1])
+        return None
+    if n == "read":
+        data = canon(rs[0])[1]
+        buflen = int(c["sent"][1]["i"])
+        if len(data) > buflen:
+            want_err, want_n, data = "other", 0, b""
+        else:
+            want_n = len(data)
+        if not o.get("rerr", "").startswith(want_err) or o.get("n") != want_n or seg_bytes(o.get("rbytes")) != data:
+            return "call site read: returned n=%r err=%s, the reply carries %d bytes and error %r (buffer %d)" % (
+                o.get("n"), o.get("rerr"), len(canon(rs[0])[1]), e[1:], buflen)
+        return None
+    want_n = canon(rs[0])[1] if n == "write" else 0
+    if o.get("rerr") != want_err or o.get("n") != want_n:
+        return "call site %s: returned n=%r err=%s, the reply says n=%r error %r" % (n, o.get("n"), o.get("rerr"), want_n, e[1:])
+    return None
+
+
 def impl_oracle(c):
     """Implementation-only reading of the property on one case: returns a
     description of the failure, or None."""
     o = c["obs"]
     if o.get("crash"):
         return "decoding crashed the process: %s" % o["crash"][:200]
+    if c["op"] == "wrap":
+        return wrap_oracle(c)
+    if c["op"] == "real":
+        # every call kind through the real client transport and the real server entry
+        if o.get("err") != "ok":
+            return "request frame: the server entry rejected what the real client sent (%s)" % o.get("err")
+        if c["name"] != "statusRequest" and (o.get("name") != c["name"] or not same_fields(o.get("fields"), c.get("sent"))):
+            return "request frame: the server entry decoded other field values than the client encoded"
+        want = "ok" if c["scen"] in ("ok", "tail") or (c["scen"] == "cut" and not c.get("cut")) else "eof"
+        if o.get("rerr") != want:
+            return "reply frame: scenario %s (%d bytes): the caller got %r, expected %r" % (c["scen"], c.get("cut", 0), o.get("rerr"), want)
+        if want == "ok" and not same_fields(o.get("rfields"), c.get("rsent")):
+            return "reply frame: the caller sees other field values than the peer encoded"
+        return None
+    if c["op"] == "dec" and c.get("sent") is not None and c["stream"] in ("roundtrip", "err-empty-message"):
+        if o.get("err") != "ok":
+            return "roundtrip: a well-formed body was rejected (%s)" % o.get("err")
+        if not same_fields(o.get("fields"), c["sent"]):
+            return "roundtrip: decoded field values differ from the encoded ones"
+        if o.get("count") != seglen(c.get("input")):
+            return "roundtrip: consumed %r bytes of the %d produced" % (o.get("count"), seglen(c.get("input")))
     inlen = seglen(c.get("input"))
     if c["op"] in ("dec", "start") and o.get("alloc", 0) > 8 * inlen + 1024 * 1024:
         return "decoding %d input bytes allocated %d bytes" % (inlen, o["alloc"])
@@ -131,11 +248,14 @@ def explore(ck, binp, seed, ncases, model_ok, first):
         trivial = seglen(c.get("input")) == 0 and c["op"] in ("dec", "start")
         ck.count(c["stream"], key=(c["op"], c.get("name"), json.dumps(c.get("input")),
                                    json.dumps(c.get("fields")), c.get("cap"), c.get("maxread"), c.get("avail"),
-                                   c.get("buflen"), c.get("replen")),
+                                   c.get("buflen"), c.get("replen"), c.get("shape"), c.get("scen"), json.dumps(c.get("sent")),
+                                   json.dumps(c.get("rsent")), c.get("cut")),
                  trivial=trivial)
         why = impl_oracle(c)
+        if why and c.get("shape"):
+            why += " (reader behaviour: %s)" % c["shape"]
         if why:
-            ck.violation("impl:%s:%s" % (c["stream"], why.split(":")[0]), why,
+            ck.violation("impl:%s:%s" % (c["stream"], why.split(":")[0].split(" (reader")[0]), why,
                          {"case": c, "expected": "error value without crash, allocation proportional to input",
                           "observed": c["obs"]})
     if first:
@@ -151,7 +271,7 @@ def explore(ck, binp, seed, ncases, model_ok, first):
         for s in range(0, len(cases), shard):
             part = cases[s:s + shard]
             txt = ("From Coq Require Import List NArith ZArith String.\n"
-                   "From Verif Require Import Lib.Bytes Sni.Wire Sni.WireCorr.\n"
+                   "From Verif Require Import Lib.Bytes Sni.Wire Sni.WireChunks Sni.WireReader Sni.WireCorr.\n"
                    "Import ListNotations.\nLocal Open Scope N_scope.\nLocal Open Scope string_scope.\n"
                    "Definition cases : list ccase := [\n  "
                    + ";\n  ".join(to_coq(c) for c in part) + "\n].\n"
@@ -197,7 +317,7 @@ def explore(ck, binp, seed, ncases, model_ok, first):
 
 
 def run(ck):
-    ncases = 3100 if not ck.thorough else 24500
+    ncases = 3900 if not ck.thorough else 25300
     ck.gen()
     built = ck.coq_make(MODEL + PROOFS, clean=ck.thorough)
     ck.obligations = ck.count_statements(STATEMENT_FILES)
@@ -222,10 +342,14 @@ def run(ck):
         checker_cmd="bin/check C13 (gen -> make -C coq theories/Props/C13.vo -> Print Assumptions audit"
                     " -> harness c13 vs vm_compute of Sni/WireCorr.v)",
         trusted=["Coq 8.16.1 kernel + vm_compute", "translator gen/wire.go (field lists, codes, pairing, constants)",
-                 "harness/cmd/c13 + checks/c13.py comparison", "sniproxy/verif_export.go shim",
+                 "harness/cmd/c13 + checks/c13.py comparison", "sniproxy/verif_export.go, verif_readers.go, verif_rpc.go shims",
                  "modelled not verified: io.ReadFull/io.CopyN/bytes.Buffer growth, websocket framing"],
         rule="seeded generation (splitmix64) over {encode, roundtrip, prefix, tail, mutated-length, garbage, "
-             "request-frame, reply-frame} plus fixed hostile-length and read-size frames; a case is non-trivial "
+             "request-frame, reply-frame} plus fixed hostile-length and read-size frames, all 256 error codes, empty "
+             "error messages, >64 KiB fields cut inside, tails around end()'s buffer sizes, every schema under six "
+             "reader delivery shapes (one byte, half, <=7 bytes, zero-length reads, data together with io.EOF), and "
+             "every call kind through the real client transport and the real server entry with well-formed / cut / "
+             "tailed / error-byte replies; a case is non-trivial "
              "unless its input is empty; distinct = distinct (op, message, input, fields, cap)",
         assumptions=["64-bit int", "the writer given to the encoder does not fail",
                      "reply trailing bytes are discarded by design (transport.go TODO)"])
